@@ -14,10 +14,15 @@
   (the update tolerance is one hour, `prune_old` takes whole hours), which fixes the order of stamps and the outcome
   of every age comparison.
 
+  Read-only accessors (`ImmuneSystem.health`, `ImmuneMemory.stats` / `export_signatures`, `repr`, `is_anergic`,
+  `get_record`, `recent_update`, `generate_peptide` called from outside, `IntegratedCell.health`) are the history
+  operation `Op.peek`: a pure read (`Sys.health` computes the report from the state); direct assignment to the public
+  list `memory.signatures` (clearing it, dropping entries) is `Op.forget`.
+
   Not modelled: the regular expressions, json parsing and md5 inside `MHCDisplay.generate_peptide` (an observation
   arrives with its length, word ids and structure id; in `Sys` the display is a slot holding the current fingerprint,
-  which `Display.generate` fills), NaN, `MHCPeptide.similarity`,
-  `health`, wall-clock fields, message texts (a violation is its kind).
+  which `Display.generate` fills), NaN, `MHCPeptide.similarity`, `recall_count` / `utilization` in the statistics,
+  wall-clock fields, message texts (a violation is its kind).
 -/
 namespace Operon.Immune
 
@@ -597,6 +602,34 @@ def Sys.importSigs (s : Sys) (data : List Sig) : Sys :=
   ⟨s.minTrain, s.tol, s.varThr, s.treg, ⟨s.mem.cap, importGo s.mem.cap (s.clock + 1) s.mem.sigs data⟩,
     s.clock + 1, s.agents⟩
 
+/-- `memory.signatures = [the entries whose position carries `true`]` (positions beyond the mask are dropped):
+    clearing the list, `pop(0)`, `del signatures[-1]`, re-assigning a slice -/
+def keepMask : List Bool → List Sig → List Sig
+  | _, [] => []
+  | [], _ :: _ => []
+  | b :: bs, x :: xs => if b then x :: keepMask bs xs else keepMask bs xs
+
+def Sys.forget (s : Sys) (mask : List Bool) : Sys :=
+  ⟨s.minTrain, s.tol, s.varThr, s.treg, ⟨s.mem.cap, keepMask mask s.mem.sigs⟩, s.clock, s.agents⟩
+
+/-- what `ImmuneSystem.health()` reports (without `utilization` / `total_recalls`): number of registered agents,
+    number of trained agents, signatures stored, capacity, and per registered agent whether it is trained and how many
+    observations its display holds.  `regs` = the keys of `displays` in insertion order, `nobs` = observation counts
+    (the display's window is not part of `Sys`).  `none` = `ZeroDivisionError` (`memory.stats()` divides by the
+    capacity).  It is a function of the state: a pure read. -/
+structure HealthReport where
+  registered : Nat
+  trained : Nat
+  stored : Nat
+  cap : Int
+  agents : List (Nat × Bool × Nat)
+  deriving DecidableEq
+
+def Sys.health (s : Sys) (regs : List Nat) (nobs : Nat → Nat) : Option HealthReport :=
+  if s.mem.cap = 0 then none
+  else some ⟨regs.length, (regs.filter fun a => (s.agents a).tcell.isSome).length, s.mem.sigs.length, s.mem.cap,
+    regs.map fun a => (a, (s.agents a).tcell.isSome, nobs a)⟩
+
 /-! ### Histories -/
 
 inductive Op where
@@ -619,6 +652,11 @@ inductive Op where
   | setProfile (a : Nat) (pr : Profile)
   | setTreg (g : Treg)
   | setCap (c : Int)
+  /-- a read-only accessor called between operations: `health()`, `memory.stats()`, `export_signatures()`, `repr`,
+      `is_anergic`, `get_record`, `recent_update`, `generate_peptide()` from outside, `IntegratedCell.health()` -/
+  | peek
+  /-- `memory.signatures` re-assigned / mutated directly: keep the entries at the positions marked `true` -/
+  | forget (mask : List Bool)
 
 /-- what an operation shows to the outside -/
 inductive Obs where
@@ -645,6 +683,8 @@ def Sys.step (s : Sys) : Op → Sys × Obs
   | .setProfile a pr => (s.configT a (·.setProfile pr), .done)
   | .setTreg g => (s.setTreg g, .done)
   | .setCap c => (s.setCap c, .done)
+  | .peek => (s, .done)
+  | .forget mask => (s.forget mask, .done)
 
 /-- run a history; the observations come out in order -/
 def Sys.run (s : Sys) : List Op → Sys × List Obs
